@@ -74,8 +74,9 @@ class Contract:
 
 
 class ClassDecl:
-    def __init__(self, name, bases=(), fields=None, elem=None, props=None, truthy=None, consts=None, attrmap=None, universal=False):
+    def __init__(self, name, bases=(), fields=None, elem=None, props=None, truthy=None, consts=None, attrmap=None, universal=False, dictof=None):
         self.name = name
+        self.dictof = dictof        # if the class is a dict subclass: (key type, value type)
         self.bases = list(bases)
         self.fields = dict(fields or {})
         self.elem = elem            # if the class is a list subclass: element type
@@ -116,8 +117,8 @@ class Prop:
         self.ghosts = {}
         self.globals = {}
 
-    def cls(self, name, bases=(), fields=None, elem=None, props=None, truthy=None, consts=None, attrmap=None, universal=False):
-        c = ClassDecl(name, bases, fields, elem, props, truthy, consts, attrmap, universal)
+    def cls(self, name, bases=(), fields=None, elem=None, props=None, truthy=None, consts=None, attrmap=None, universal=False, dictof=None):
+        c = ClassDecl(name, bases, fields, elem, props, truthy, consts, attrmap, universal, dictof)
         self.classes[name] = c
         for f, t in c.fields.items():
             self.fields.setdefault(f, t)
